@@ -45,7 +45,7 @@ def shards(tier):
     return 16
 
 
-def twin(R, obs, name, src, calls, family, module=None):
+def twin(R, obs, name, src, calls, family, module=None, in_rng=None):
     """calls: [(fname, [(args, globals)])]"""
     rec0, rec1 = passes.BoundaryRecorder(check=False, keep_listings=True), passes.BoundaryRecorder(check=False, keep_listings=True)
     c0 = diff.Compiled(src, optimize=False, listener=rec0)
@@ -67,6 +67,22 @@ def twin(R, obs, name, src, calls, family, module=None):
                     "%s: optimised compilation fails (%s: %s) where the unoptimised one succeeds" % (name, exc["cls"], exc["msg"][:80]),
                     {"sources": {"main": src}, "case": name, "exc": exc})
         return
+    if calls is None:
+        # whole-language candidates: inputs from the declared types read off the compiled module
+        from . import c05
+        calls = []
+        try:
+            gtypes = dict(c0.program.Globals)
+            for fname in [n for n in c0.out.ir.Functions if not n.startswith("@")][:4]:
+                fn = c0.out.ir.Functions[fname]
+                ins = []
+                for _ in range(2):
+                    ins.append(({n: c05.value_ir(t, in_rng) for n, t in fn.Type.Arguments.items()},
+                                {n: c05.value_ast(t, in_rng) for n, t in gtypes.items()}))
+                calls.append((fname, ins))
+        except nslapi.Harness:
+            R.count("skipped_unbuildable_input")
+            return
     l0 = rec0.listings[-1][1] if rec0.listings else ""
     l1 = rec1.listings[-1][1] if rec1.listings else ""
     changed = l0 != l1
@@ -157,6 +173,18 @@ def run_shard(tier, seed, shard, n, R):
             continue
         twin(R, obs, name, print_module(module), calls, "directed-calls")
     R.flags["directed_families_of_C01_C03_C04"] = True
+    from ..gen import whole
+    from .. import bootstrap
+    seeds = list(whole.SEEDS) + whole.repo_sources(bootstrap.repo_path())
+    mrng = random.Random(seed * 4241 + shard)
+    for j in range(BUDGET[tier] * 2):
+        base = mrng.choice(seeds)
+        src = base if j % 7 == 0 else whole.mutate(base, mrng, mrng.choice([1, 1, 2]))
+        try:
+            twin(R, obs, "mutant:%d:%d" % (shard, j), src, None, "whole-language", in_rng=mrng)
+        except RecursionError:
+            R.count("dropped_RecursionError")       # a mutant that recurses without bound: resource exhaustion, not judged
+        R.count("whole_language_candidates")
     for j in range(BUDGET[tier]):
         s = (seed * 1000003 + shard) * 100000 + j
         rng = random.Random(s)
